@@ -81,6 +81,9 @@ pub struct Ctx {
     pub max_viol: usize,
     last: Option<std::fs::File>,
     pub is_miri: bool,
+    /// `--pool N`: the library's rayon code runs in a global pool of N threads (the monitor itself is unchanged: the
+    /// result of every operation is specified independently of the thread count, so every oracle applies as it is)
+    pub pool: usize,
 }
 
 fn arg_value(args: &[String], name: &str) -> Option<String> {
@@ -106,6 +109,21 @@ impl Ctx {
         let flavour = arg_value(&args, "--flavour").unwrap_or_else(|| "rel".into());
         let n = arg_value(&args, "--n").and_then(|s| s.parse().ok()).unwrap_or(1000);
         let only = arg_value(&args, "--only").and_then(|s| s.parse().ok());
+        let pool: usize = arg_value(&args, "--pool").and_then(|s| s.parse().ok()).unwrap_or(0);
+        if pool > 0 {
+            #[cfg(feature = "rayon")]
+            {
+                if let Err(e) = rayon::ThreadPoolBuilder::new().num_threads(pool).build_global() {
+                    println!("INCONCLUSIVE cannot build the global pool of {} threads: {:?}", pool, e);
+                    std::process::exit(2);
+                }
+            }
+            #[cfg(not(feature = "rayon"))]
+            {
+                println!("INCONCLUSIVE --pool needs a build with the rayon feature");
+                std::process::exit(2);
+            }
+        }
         let replay_case = arg_value(&args, "--case").map(|s| serde_json::from_str(&s).expect("--case json"));
         let out = PathBuf::from(arg_value(&args, "--out").unwrap_or_else(|| "/dev/null".into()));
         let last = if out.as_os_str() != "/dev/null" {
@@ -131,6 +149,7 @@ impl Ctx {
             max_viol: 20,
             last,
             is_miri: cfg!(miri),
+            pool,
         }
     }
 
